@@ -548,8 +548,25 @@ func (e *Encoder) typeInvariant(v *SVal) {
 	}
 	c := e.c
 	lim := c.BVLit(1<<maxLenBits, 64)
+	// anything that existed when the function was entered has an object identity below A0;
+	// objects allocated by this invocation are root(A0+k)
+	old := func(t *Term) {
+		if t == nil || t.S != RefS || t.Op == "nilref" || t.Op == "root" || t.Op == "sub" || t.Op == "idx" || !c.preExisting(t) {
+			return
+		}
+		f := c.Or(c.Not(c.IsRoot(t)), c.IntLt(c.RootID(t), e.A0))
+		if !e.tiFacts[f] {
+			e.tiFacts[f] = true
+			e.assumeFact(f)
+		}
+	}
+	switch v.K {
+	case KPtr, KMap, KIface:
+		old(v.T)
+	}
 	switch v.K {
 	case KSlice:
+		old(v.Base)
 		if v.Len.IsLit() && v.Cap.IsLit() && v.Off.IsLit() {
 			return
 		}
@@ -557,6 +574,7 @@ func (e *Encoder) typeInvariant(v *SVal) {
 		e.tiFacts[f] = true
 		e.assumeFact(f)
 	case KString:
+		old(v.Base)
 		if v.Len.IsLit() && v.Off.IsLit() {
 			return
 		}
@@ -685,7 +703,7 @@ func (e *Encoder) stringEq(a, b *SVal) *Term {
 	}
 	// same length and same bytes (quantified)
 	st := e.cur
-	mem := e.get(st, "mem:bv8", Arr(RefS, Arr(BV64, BV8)))
+	mem := e.get(st, "mem:str", Arr(RefS, Arr(BV64, BV8)))
 	k := c.Bound("k", BV64)
 	body := c.Implies(c.BVCmp("bvult", k, a.Len), c.Eq(c.Select(c.Select(mem, a.Base), c.BVBin("bvadd", a.Off, k)), c.Select(c.Select(mem, b.Base), c.BVBin("bvadd", b.Off, k))))
 	return c.And(c.Eq(a.Len, b.Len), c.Forall([]*Term{k}, body))
@@ -699,4 +717,13 @@ func (e *Encoder) inputObject(base *Term) {
 	c := e.c
 	id := c.RootID(base)
 	e.assumeFact(c.Or(c.Eq(base, c.NilRef()), c.And(c.IsRoot(base), c.IntLe(c.Int(0), id), c.IntLt(id, e.A0))))
+}
+
+// byteClass: strings are immutable and live in their own memory class, so that
+// no []byte buffer can alias string contents.
+func byteClass(v *SVal) string {
+	if v.K == KString {
+		return "mem:str"
+	}
+	return "mem:bv8"
 }
